@@ -11,17 +11,27 @@ package emit
 //	                                                            independently from the same value text, same form
 //	         xloop;<Type2>;<value2>;<canon>;<wants>;<ctls>;<path>   Loop over a partner object of another registered
 //	                                                            type (one per distinct <Type2>;<value2>, handed over as *T2)
-//	         get;<path>   getto;<path>                          Get / GetTo on the object
+//	         get;<path>   getto;<path>                          Get / GetTo on the object (GetTo: a result buffer of its own)
+//	         bgetto;<path>                                      GetTo on the object with the RESULT BUFFER OF THE HISTORY:
+//	                                                            ONE *any owned by the caller (a sentinel in it when the
+//	                                                            history starts) is handed to every bgetto / obgetto /
+//	                                                            xbgetto step, so that it holds the answer of the step
+//	                                                            before - after a struct field a pointer INTO an object
+//	         obgetto;<path>                                     the same on the SECOND object (as for oloop)
+//	         xbgetto;<Type2>;<value2>;<path>                    the same on a partner object (as for xloop)
 //	   observation   <step observation>#<step observation>#...;same=<one bit per step>
-//	         step observations are those of the ops loop / get / getto; same: after the step EVERY object of the history
-//	         (the object, the second object, the partners) dumps as it did before the first step, and every key a map
-//	         yields is found again by a lookup of that key (a key changed in place sits in a stale bucket).
+//	         step observations are those of the ops loop / get / getto (bgetto...: what the shared buffer denotes after
+//	         the call, "same" = still the sentinel; live = it is the element the step's path reaches in the step's
+//	         object); same: after the step EVERY object of the history (the object, the second object, the partners)
+//	         dumps as it did before the first step, and every key a map yields is found again by a lookup of that key
+//	         (a key changed in place sits in a stale bucket).
 //	seqf;<step>|<step>|...          grouped: the history by value, by pointer and by pointer-to-pointer (fresh objects and
 //	                                a fresh buffer per form), and every step ALONE on fresh objects with a fresh buffer
 //	                                (by pointer):
 //	                                    alone=<v><p><pp>.<v><p><pp>. ... ;same=<v><p><pp>.<v><p><pp>. ...
 //	         alone, per step and form: the step's observation inside the history is its observation alone (get / getto
-//	         without the liveness bit); same, per step and form: as above.
+//	         without the liveness bit; a bgetto / obgetto / xbgetto step that stores nothing alone - "v=same" - must
+//	         leave the shared buffer holding the very pointer it held before the step); same, per step and form: as above.
 //
 // Map keys and strings of the objects are run-time (heap) strings (value.go builds them from decoded bytes), so an
 // erroneous store into one is an observable change, not a fault in read-only memory.
@@ -121,13 +131,49 @@ type seqHist struct {
 	others map[string]*seqObj
 	order  []*seqObj
 	buf    []byte
+	sent   *getSentinel
+	res    any  // the caller's result buffer, handed to every bgetto / obgetto / xbgetto step
+	kept   bool // the last such step left in res the very pointer it found there
 }
 
 func newSeqHist(ins inspector.Inspector, t reflect.Type, form, value string) *seqHist {
 	h := &seqHist{ins: ins, t: t, form: form, value: value, others: map[string]*seqObj{}, buf: make([]byte, 0, 8)}
 	h.main = newSeqObj(ins, t, form, value)
 	h.order = append(h.order, h.main)
+	h.sent = &getSentinel{"sentinel"}
+	h.res = h.sent
 	return h
+}
+
+// samePointer: two contents of a result buffer are the same pointer (GetTo only ever stores pointers)
+func samePointer(a, b any) bool {
+	va, vb := reflect.ValueOf(a), reflect.ValueOf(b)
+	if !va.IsValid() || !vb.IsValid() {
+		return !va.IsValid() && !vb.IsValid()
+	}
+	if va.Type() != vb.Type() {
+		return false
+	}
+	switch va.Kind() {
+	case reflect.Ptr, reflect.Map, reflect.Slice, reflect.UnsafePointer, reflect.Chan, reflect.Func:
+		return va.Pointer() == vb.Pointer()
+	}
+	return false
+}
+
+// GetTo with the history's result buffer
+func (h *seqHist) sharedGetTo(ins inspector.Inspector, a any, path []string) string {
+	before := h.res
+	h.kept = false
+	err := ins.GetTo(a, &h.res, path...)
+	h.kept = samePointer(before, h.res)
+	if err != nil {
+		return "e=" + ErrName(err)
+	}
+	if p, ok := h.res.(*getSentinel); ok && p == h.sent {
+		return "e=nil;v=same;live=0"
+	}
+	return "e=nil;v=" + DumpDeref(reflect.ValueOf(h.res)) + ";live=" + liveBit(a, path, h.res)
 }
 
 func (h *seqHist) intact() bool {
@@ -166,8 +212,25 @@ func (h *seqHist) step(args []string) (obs string) {
 		return getObs(h.ins, h.main.arg, false, Path(args[1]))
 	case "getto":
 		return getObs(h.ins, h.main.arg, true, Path(args[1]))
+	case "bgetto":
+		return h.sharedGetTo(h.ins, h.main.arg, Path(args[1]))
+	case "obgetto":
+		if h.second == nil {
+			return "NOOBJECT"
+		}
+		return h.sharedGetTo(h.ins, h.second.arg, Path(args[1]))
+	case "xbgetto":
+		o := h.others[args[1]+";"+args[2]]
+		if o == nil {
+			return "NOTYPE"
+		}
+		return h.sharedGetTo(o.ins, o.arg, Path(args[3]))
 	}
 	return "NOOP"
+}
+
+func sharedStep(s []string) bool {
+	return len(s) > 0 && (s[0] == "bgetto" || s[0] == "obgetto" || s[0] == "xbgetto")
 }
 
 // the objects the steps touch are built before the first step runs, so that "as before the first step" covers them
@@ -177,12 +240,12 @@ func (h *seqHist) prepare(steps [][]string) {
 			continue
 		}
 		switch s[0] {
-		case "oloop":
+		case "oloop", "obgetto":
 			if h.second == nil {
 				h.second = newSeqObj(h.ins, h.t, h.form, h.value)
 				h.order = append(h.order, h.second)
 			}
-		case "xloop":
+		case "xloop", "xbgetto":
 			if len(s) < 3 {
 				continue
 			}
@@ -205,19 +268,22 @@ func (h *seqHist) prepare(steps [][]string) {
 	}
 }
 
-func runSeq(ins inspector.Inspector, t reflect.Type, form string, steps [][]string, value string) (obs []string, same []bool) {
+// kept, per step: a step that was handed the shared result buffer left in it the very pointer it found there
+func runSeq(ins inspector.Inspector, t reflect.Type, form string, steps [][]string, value string) (obs []string, same, kept []bool) {
 	h := newSeqHist(ins, t, form, value)
 	h.prepare(steps)
 	for _, s := range steps {
+		h.kept = false
 		obs = append(obs, h.step(s))
 		same = append(same, h.intact())
+		kept = append(kept, h.kept)
 	}
 	return
 }
 
 func init() {
 	ops["seq"] = func(ins inspector.Inspector, t reflect.Type, form string, args []string, value string) string {
-		obs, same := runSeq(ins, t, form, splitInner(args), value)
+		obs, same, _ := runSeq(ins, t, form, splitInner(args), value)
 		var bits strings.Builder
 		for _, s := range same {
 			bits.WriteString(bit(s))
@@ -228,15 +294,20 @@ func init() {
 		steps := splitInner(args)
 		alone := make([]string, len(steps))
 		for i, s := range steps {
-			o, _ := runSeq(ins, t, "p", [][]string{s}, value)
+			o, _, _ := runSeq(ins, t, "p", [][]string{s}, value)
 			alone[i] = stripLive(o[0])
 		}
 		al := make([]string, len(steps))
 		sm := make([]string, len(steps))
 		for _, f := range []string{"v", "p", "pp"} {
-			obs, same := runSeq(ins, t, f, steps, value)
+			obs, same, kept := runSeq(ins, t, f, steps, value)
 			for i := range steps {
-				al[i] += bit(stripLive(obs[i]) == alone[i])
+				if sharedStep(steps[i]) && alone[i] == "e=nil;v=same" {
+					// alone the call stores nothing: the caller's buffer must be exactly as it was
+					al[i] += bit(kept[i])
+				} else {
+					al[i] += bit(stripLive(obs[i]) == alone[i])
+				}
 				sm[i] += bit(same[i])
 			}
 		}
